@@ -73,7 +73,7 @@ fn gen(rng: &mut Rng, _idx: u64, tier: Tier) -> Case {
     // insert junk
     let junk_rate = *rng.pick(&[0.1, 0.3, 0.6, 1.5]);
     let mut lines: Vec<(i64, Vec<u8>, String)> = vec![];
-    let mut push_junk = |rng: &mut Rng, lines: &mut Vec<(i64, Vec<u8>, String)>, acs: &mut [gen::Ac]| {
+    let push_junk = |rng: &mut Rng, lines: &mut Vec<(i64, Vec<u8>, String)>, acs: &mut [gen::Ac]| {
         let mut budget = junk_rate;
         while rng.f64() < budget {
             budget -= 1.0;
